@@ -1,10 +1,24 @@
 pub mod c01;
+pub mod c02;
+pub mod c03;
+pub mod c06;
 pub mod c09;
 pub mod c11;
 pub mod c12;
+pub mod c13;
+pub mod l2scen;
 
 use crate::engine::Prop;
 
 pub fn registry() -> Vec<Box<dyn Prop>> {
-    vec![Box::new(c01::C01), Box::new(c09::C09), Box::new(c11::C11), Box::new(c12::C12)]
+    vec![
+        Box::new(c01::C01),
+        Box::new(c02::C02),
+        Box::new(c03::C03),
+        Box::new(c06::C06),
+        Box::new(c09::C09),
+        Box::new(c11::C11),
+        Box::new(c12::C12),
+        Box::new(c13::C13),
+    ]
 }
